@@ -236,6 +236,181 @@ Section Agree.
   Proof. ag isSpecialScheme_norm. Qed.
 End Agree.
 
+(* ---------- parseIPv4 with its local function named ---------- *)
+Definition ipv4_after_empty (c : cfg) (u : url) (parts : list str) : res str :=
+  (if (4 <? len parts)%Z then (fun k => herr c u IPv4TooManyParts true k) else (fun k => k u))
+  (fun u =>
+    match ipv4_numbers c u parts [] with
+    | Er u e => Er u e
+    | Ok u numbers =>
+        ipv4_range_warn c u numbers (fun u =>
+          let init := drop_last numbers in
+          if existsb (fun n => 255 <? n) init then herr c u IPv4OutOfRangePart true (fun u => Ok u [])
+          else match last_opt numbers with
+               | None => Ok u []
+               | Some lastn =>
+                   if 256 ^ (5 - N.of_nat (length numbers)) <=? lastn
+                   then herr c u IPv4OutOfRangePart true (fun u => Ok u [])
+                   else Ok u (IPv4String (lastn + ipv4_sum init 0))
+               end)
+    end).
+
+Lemma parseIPv4_unfold c u input :
+  parseIPv4 c u input =
+  match last_opt (split 46 input) with
+  | Some [] =>
+      herr c u IPv4EmptyPart false (fun u =>
+        ipv4_after_empty c u (if (1 <? len (split 46 input))%Z then drop_last (split 46 input) else split 46 input))
+  | _ => ipv4_after_empty c u (split 46 input)
+  end.
+Proof. reflexivity. Qed.
+
+(* ---------- a property of the recorded errors that no handleError call destroys (one run) ---------- *)
+Section HostEsc.
+  Variable idna : str -> str * bool.
+  Variable c : cfg.
+  Variable EV : list verr -> Prop.
+  Hypothesis H_ev : forall u t f, EV (u_verrs u) -> EV (u_verrs (fst (handleError c u t f))).
+
+  Definition esc_res {A} (r : res A) : Prop :=
+    match r with Ok u _ => EV (u_verrs u) | Er _ _ => True end.
+
+  Lemma herr_esc A u t f (k : url -> res A) :
+    EV (u_verrs u) -> (forall u', EV (u_verrs u') -> esc_res (k u')) -> esc_res (herr c u t f k).
+  Proof.
+    intros HE Hk. unfold herr. pose proof (H_ev _ t f HE) as H.
+    destruct (handleError c u t f) as [u' [e|]]; cbn in *; [exact I|apply Hk, H].
+  Qed.
+
+  Lemma cond_herr_esc A (b : bool) u t f (k : url -> res A) :
+    EV (u_verrs u) -> (forall u', EV (u_verrs u') -> esc_res (k u')) ->
+    esc_res ((if b then (fun k => herr c u t f k) else (fun k => k u)) k).
+  Proof. intros HE Hk. destruct b; [apply herr_esc; assumption|apply Hk, HE]. Qed.
+
+  Lemma parseIPv4Number_esc u input :
+    EV (u_verrs u) -> EV (u_verrs (fst (parseIPv4Number c u input))).
+  Proof.
+    intros HE. destruct input; [|exact HE].
+    unfold parseIPv4Number. pose proof (H_ev _ IPv4EmptyPart true HE) as H.
+    destruct (handleError c u IPv4EmptyPart true). exact H.
+  Qed.
+
+  Lemma endsInANumber_esc u input :
+    EV (u_verrs u) -> EV (u_verrs (fst (endsInANumber c u input))).
+  Proof.
+    intros HE. unfold endsInANumber.
+    set (parts := match last_opt (split 46 input) with
+                  | Some [] => if (len (split 46 input) =? 1)%Z then [] else drop_last (split 46 input)
+                  | _ => split 46 input end).
+    destruct (last_opt parts) as [[|x l]|]; try exact HE.
+    destruct (all_in isDigit (x :: l)); [exact HE|].
+    pose proof (@parseIPv4Number_esc u (x :: l) HE) as H.
+    destruct (parseIPv4Number c u (x :: l)) as [u' [n ve|rg]]; exact H.
+  Qed.
+
+  Lemma ipv4_numbers_esc parts : forall u acc,
+    EV (u_verrs u) -> esc_res (ipv4_numbers c u parts acc).
+  Proof.
+    induction parts as [|p rest IH]; intros u acc HE; [exact HE|].
+    cbn [ipv4_numbers]. pose proof (@parseIPv4Number_esc u p HE) as H.
+    destruct (parseIPv4Number c u p) as [u1 [n ve|rg]]; cbn [fst] in H.
+    - destruct ve; [apply herr_esc; [exact H|]; intros; apply IH; assumption|apply IH, H].
+    - apply herr_esc; [exact H|]. intros; apply IH; assumption.
+  Qed.
+
+  Lemma ipv4_range_warn_esc ns : forall u (k : url -> res str),
+    EV (u_verrs u) -> (forall u', EV (u_verrs u') -> esc_res (k u')) ->
+    esc_res (ipv4_range_warn c u ns k).
+  Proof.
+    induction ns as [|n rest IH]; intros u k HE Hk; [apply Hk, HE|].
+    cbn [ipv4_range_warn]. destruct (255 <? n).
+    - apply herr_esc; [exact HE|]. intros; apply IH; assumption.
+    - apply IH; assumption.
+  Qed.
+
+  Ltac er_base :=
+    match goal with
+    | |- esc_res (Ok _ _) => assumption
+    | |- esc_res (Er _ _) => exact I
+    | |- esc_res (herr _ _ _ _ _) => apply herr_esc; [assumption|intros ? ?]
+    | |- esc_res ((if ?b then _ else _) _) => destruct b
+    | |- esc_res (match ?X with _ => _ end) => destruct X
+    end.
+
+  Lemma ipv4_after_empty_esc u parts : EV (u_verrs u) -> esc_res (ipv4_after_empty c u parts).
+  Proof.
+    intros HE. unfold ipv4_after_empty. apply cond_herr_esc; [exact HE|]. intros w HW.
+    pose proof (@ipv4_numbers_esc parts w [] HW) as HN.
+    destruct (ipv4_numbers c w parts []) as [x n|x e]; [|exact I].
+    apply ipv4_range_warn_esc; [exact HN|]. intros y HY. cbv zeta. repeat er_base.
+  Qed.
+
+  Lemma parseIPv4_esc u input : EV (u_verrs u) -> esc_res (parseIPv4 c u input).
+  Proof.
+    intros HE. rewrite parseIPv4_unfold.
+    destruct (last_opt (split 46 input)) as [[|x l]|]; try (apply ipv4_after_empty_esc, HE).
+    apply herr_esc; [exact HE|]. intros; apply ipv4_after_empty_esc; assumption.
+  Qed.
+
+  Lemma parseIPv6_esc u input : EV (u_verrs u) -> esc_res (parseIPv6 c u input).
+  Proof. intros HE. unfold parseIPv6. repeat er_base. Qed.
+
+  Lemma opaque_loop_esc input l : forall u out,
+    EV (u_verrs u) -> esc_res (opaque_loop c u input l out).
+  Proof.
+    induction l as [|ch rest IH]; intros u out HE; [exact HE|].
+    cbn [opaque_loop].
+    assert (K : forall v, EV (u_verrs v) ->
+      esc_res ((if negb (isURLCodePoint ch) && negb (ch =? 37)
+                then (fun k => herr c v InvalidURLUnit false k) else (fun k => k v))
+               (fun u => (if (ch =? 37) && invalid_pct (ch :: rest)
+                          then (fun k => herr c u InvalidURLUnit false k) else (fun k => k u))
+                         (fun u => opaque_loop c u input rest (out ++ percentEncodeRune c ch (Some pes_C0)))))).
+    { intros v HV. apply cond_herr_esc; [exact HV|]. intros w HW.
+      apply cond_herr_esc; [exact HW|]. intros; apply IH; assumption. }
+    destruct (isForbiddenHost ch); [|apply K, HE].
+    destruct (c_lax c); [exact HE|]. apply herr_esc; [exact HE|exact K].
+  Qed.
+
+  Lemma parseOpaqueHost_esc u input : EV (u_verrs u) -> esc_res (parseOpaqueHost c u input).
+  Proof. intros; apply opaque_loop_esc; assumption. Qed.
+
+  Lemma endsInANumber_k_esc (a post : str) v :
+    EV (u_verrs v) ->
+    esc_res (match endsInANumber c v a with
+             | (u, true) => parseIPv4 c u a
+             | (u, false) => Ok u post end).
+  Proof.
+    intros HV. pose proof (@endsInANumber_esc v a HV) as HW.
+    destruct (endsInANumber c v a) as [w b]. cbn [fst] in HW.
+    destruct b; [apply parseIPv4_esc, HW|exact HW].
+  Qed.
+
+  Ltac er_step :=
+    match goal with
+    | |- esc_res (match endsInANumber _ _ _ with _ => _ end) => apply endsInANumber_k_esc; assumption
+    | |- esc_res (parseOpaqueHost _ _ _) => apply parseOpaqueHost_esc; assumption
+    | |- esc_res (parseIPv6 _ _ _) => apply parseIPv6_esc; assumption
+    | _ => er_base
+    end.
+
+  Lemma parseHost_esc u input ns : EV (u_verrs u) -> esc_res (parseHost idna c u input ns).
+  Proof.
+    intros HE. unfold parseHost. cbv zeta.
+    destruct (apply_hostfun (c_pre c) input) as [|x l]; [exact HE|].
+    match goal with
+    | |- esc_res (match x with N0 => ?B | _ => _ end) => assert (DOM : esc_res B)
+    end.
+    { repeat er_step. }
+    assert (V6 : esc_res ((if negb (has_suffix [93] (x :: l)) then (fun k => herr c u IPv6Unclosed true k) else (fun k => k u))
+                            (fun u => parseIPv6 c u (drop_last (tl (x :: l)))))).
+    { repeat er_step. }
+    destruct x as [|p]; [exact DOM|].
+    repeat (destruct p as [p|p|]; try exact DOM).
+    exact V6.
+  Qed.
+End HostEsc.
+
 (* ---------- the generic lock-step simulation: host parsers ---------- *)
 Section HostSim.
   Variable idna : str -> str * bool.
@@ -244,10 +419,12 @@ Section HostSim.
 
   (* VR: invariant relating the recorded errors of the two runs;
      EP: a property of every (record, error) pair returned by the first run;
-     EANY: whether the first run may fail where the second goes on. *)
+     EANY: whether the first run may fail where the second goes on; when that happens
+     EV holds of what the second run has recorded, and keeps holding *)
   Variable VR : list verr -> list verr -> Prop.
   Variable EP : url -> verr -> Prop.
   Variable EANY : Prop.
+  Variable EV : list verr -> Prop.
 
   Definition UR (u1 u2 : url) : Prop := eqv u1 u2 /\ VR (u_verrs u1) (u_verrs u2).
 
@@ -256,9 +433,12 @@ Section HostSim.
     match snd (handleError c1 u1 t f), snd (handleError c2 u2 t f) with
     | None, None => VR (u_verrs (fst (handleError c1 u1 t f))) (u_verrs (fst (handleError c2 u2 t f)))
     | Some _, Some _ => True
-    | Some _, None => EANY
+    | Some _, None => EANY /\ EV (u_verrs (fst (handleError c2 u2 t f)))
     | None, Some _ => False
     end.
+  Hypothesis H_ev : forall u t f, EV (u_verrs u) -> EV (u_verrs (fst (handleError c2 u t f))).
+
+  Notation esc := (esc_res EV).
 
   (* relation on results of the host parsers *)
   Definition RR {A} (r1 r2 : res A) : Prop :=
@@ -266,7 +446,7 @@ Section HostSim.
     | Ok u1 a1 => match r2 with Ok u2 a2 => UR u1 u2 /\ a1 = a2 | Er _ _ => False end
     | Er u1 e1 =>
         EP u1 e1 /\
-        (EANY \/ match r2 with Er u2 e2 => eqv u1 u2 /\ e1 = e2 | Ok _ _ => False end)
+        ((EANY /\ esc r2) \/ match r2 with Er u2 e2 => eqv u1 u2 /\ e1 = e2 | Ok _ _ => False end)
     end.
 
   Lemma UR_eqv u1 u2 : UR u1 u2 -> eqv u1 u2. Proof. intros [H _]; exact H. Qed.
@@ -274,9 +454,10 @@ Section HostSim.
   Lemma herr_rel A u1 u2 t f (k1 k2 : url -> res A) :
     UR u1 u2 ->
     (forall u1' u2', UR u1' u2' -> RR (k1 u1') (k2 u2')) ->
+    (forall u2', EV (u_verrs u2') -> esc (k2 u2')) ->
     RR (herr c1 u1 t f k1) (herr c2 u2 t f k2).
   Proof.
-    intros HU Hk. unfold herr.
+    intros HU Hk Hesc. unfold herr.
     pose proof (H_he t f HU) as Hh.
     pose proof (@H_EP u1 t f) as He.
     pose proof (handleError_eqv c1 c2 t f (UR_eqv HU)) as Hq.
@@ -288,7 +469,7 @@ Section HostSim.
     - split; [apply He; reflexivity|]. right. split; [exact Hq|].
       destruct (f || c_fail c1), (f || c_fail c2); try discriminate.
       inversion S1; inversion S2; subst. apply mkerr_eqv, (UR_eqv HU).
-    - split; [apply He; reflexivity|]. left; exact Hh.
+    - split; [apply He; reflexivity|]. left. split; [apply Hh|apply Hesc, Hh].
     - contradiction.
     - apply Hk. split; assumption.
   Qed.
@@ -308,9 +489,17 @@ Section HostSim.
   Lemma cond_herr_rel A (b : bool) u1 u2 t f (k1 k2 : url -> res A) :
     UR u1 u2 ->
     (forall u1' u2', UR u1' u2' -> RR (k1 u1') (k2 u2')) ->
+    (forall u2', EV (u_verrs u2') -> esc (k2 u2')) ->
     RR ((if b then (fun k => herr c1 u1 t f k) else (fun k => k u1)) k1)
        ((if b then (fun k => herr c2 u2 t f k) else (fun k => k u2)) k2).
-  Proof. intros HU Hk. destruct b; [apply herr_rel; assumption | apply Hk, HU]. Qed.
+  Proof. intros HU Hk He. destruct b; [apply herr_rel; assumption | apply Hk, HU]. Qed.
+
+  Lemma cond_herr_fatal_rel A (b : bool) u1 u2 t (k1 k2 : url -> res A) :
+    UR u1 u2 ->
+    (forall u1' u2', UR u1' u2' -> RR (k1 u1') (k2 u2')) ->
+    RR ((if b then (fun k => herr c1 u1 t true k) else (fun k => k u1)) k1)
+       ((if b then (fun k => herr c2 u2 t true k) else (fun k => k u2)) k2).
+  Proof. intros HU Hk. destruct b; [apply herr_fatal_rel, (UR_eqv HU) | apply Hk, HU]. Qed.
 
   (* --- IPv4 --- *)
   Lemma parseIPv4Number_rel u1 u2 input :
@@ -359,78 +548,77 @@ Section HostSim.
         apply herr_fatal_rel; exact Hq.
       + destruct HP as [E1 E2]. rewrite E1, E2.
         destruct (parseIPv4Number_nonempty (x :: l)) as [n ve|rg].
-        * destruct ve; [apply herr_rel; [exact HU|]; intros; apply IH; assumption | apply IH; exact HU].
+        * destruct ve; [|apply IH; exact HU].
+          apply herr_rel; [exact HU| |]; intros; [apply IH|apply (@ipv4_numbers_esc c2 EV H_ev)]; assumption.
         * apply herr_fatal_rel, (UR_eqv HU).
   Qed.
 
   Lemma ipv4_range_warn_rel ns : forall u1 u2 (k1 k2 : url -> res str),
     UR u1 u2 ->
     (forall u1' u2', UR u1' u2' -> RR (k1 u1') (k2 u2')) ->
+    (forall u2', EV (u_verrs u2') -> esc (k2 u2')) ->
     RR (ipv4_range_warn c1 u1 ns k1) (ipv4_range_warn c2 u2 ns k2).
   Proof.
-    induction ns as [|n rest IH]; intros u1 u2 k1 k2 HU Hk.
+    induction ns as [|n rest IH]; intros u1 u2 k1 k2 HU Hk He.
     - cbn. apply Hk, HU.
     - cbn [ipv4_range_warn]. destruct (255 <? n).
-      + apply herr_rel; [exact HU|]. intros; apply IH; assumption.
+      + apply herr_rel; [exact HU| |]; intros; [apply IH|apply (@ipv4_range_warn_esc c2 EV H_ev)]; assumption.
       + apply IH; assumption.
+  Qed.
+
+  Lemma ipv4_after_empty_rel parts u1 u2 :
+    UR u1 u2 -> RR (ipv4_after_empty c1 u1 parts) (ipv4_after_empty c2 u2 parts).
+  Proof.
+    intros HV. unfold ipv4_after_empty. apply cond_herr_fatal_rel; [exact HV|].
+    intros w1 w2 HW.
+    pose proof (ipv4_numbers_rel parts [] HW) as HN.
+    destruct (ipv4_numbers c1 w1 parts []) as [x1 n1|x1 e1].
+    - destruct (ipv4_numbers c2 w2 parts []) as [x2 n2|x2 e2]; [|contradiction].
+      destruct HN as [HX <-].
+      assert (KE : forall y2, EV (u_verrs y2) ->
+        esc (let init := drop_last n1 in
+             if existsb (fun n => 255 <? n) init then herr c2 y2 IPv4OutOfRangePart true (fun u => Ok u [])
+             else match last_opt n1 with
+                  | None => Ok y2 []
+                  | Some lastn =>
+                      if 256 ^ (5 - N.of_nat (length n1)) <=? lastn
+                      then herr c2 y2 IPv4OutOfRangePart true (fun u => Ok u [])
+                      else Ok y2 (IPv4String (lastn + ipv4_sum init 0))
+                  end)).
+      { intros y2 HY. cbv zeta.
+        destruct (existsb (fun n => 255 <? n) (drop_last n1)).
+        - apply (@herr_esc c2 EV H_ev); [exact HY|]. intros; assumption.
+        - destruct (last_opt n1) as [lastn|]; [|exact HY].
+          destruct (256 ^ (5 - N.of_nat (length n1)) <=? lastn); [|exact HY].
+          apply (@herr_esc c2 EV H_ev); [exact HY|]. intros; assumption. }
+      apply ipv4_range_warn_rel; [exact HX| |exact KE].
+      intros y1 y2 HY. cbv zeta.
+      destruct (existsb (fun n => 255 <? n) (drop_last n1)).
+      + apply herr_fatal_rel, (UR_eqv HY).
+      + destruct (last_opt n1) as [lastn|]; [|split; [exact HY|reflexivity]].
+        destruct (256 ^ (5 - N.of_nat (length n1)) <=? lastn).
+        * apply herr_fatal_rel, (UR_eqv HY).
+        * split; [exact HY|reflexivity].
+    - destruct HN as [HE [[HA HS]|HX]].
+      + split; [exact HE|]. left. split; [exact HA|].
+        destruct (ipv4_numbers c2 w2 parts []) as [x2 n2|x2 e2]; [|exact I].
+        cbn in HS. apply (@ipv4_range_warn_esc c2 EV H_ev); [exact HS|].
+        intros y2 HY. cbv zeta.
+        destruct (existsb (fun n => 255 <? n) (drop_last n2)).
+        * apply (@herr_esc c2 EV H_ev); [exact HY|]. intros; assumption.
+        * destruct (last_opt n2) as [lastn|]; [|exact HY].
+          destruct (256 ^ (5 - N.of_nat (length n2)) <=? lastn); [|exact HY].
+          apply (@herr_esc c2 EV H_ev); [exact HY|]. intros; assumption.
+      + destruct (ipv4_numbers c2 w2 parts []) as [x2 n2|x2 e2]; [contradiction|].
+        split; [exact HE|right; exact HX].
   Qed.
 
   Lemma parseIPv4_rel u1 u2 input :
     UR u1 u2 -> RR (parseIPv4 c1 u1 input) (parseIPv4 c2 u2 input).
   Proof.
-    intros HU. unfold parseIPv4.
-    assert (AE : forall parts u1 u2, UR u1 u2 ->
-      RR ((if (4 <? len parts)%Z then (fun k => herr c1 u1 IPv4TooManyParts true k) else (fun k => k u1))
-           (fun u => match ipv4_numbers c1 u parts [] with
-             | Er u e => Er u e
-             | Ok u numbers =>
-               ipv4_range_warn c1 u numbers (fun u =>
-                 let init := drop_last numbers in
-                 if existsb (fun n => 255 <? n) init then herr c1 u IPv4OutOfRangePart true (fun u => Ok u [])
-                 else match last_opt numbers with
-                      | None => Ok u []
-                      | Some lastn =>
-                          if 256 ^ (5 - N.of_nat (length numbers)) <=? lastn
-                          then herr c1 u IPv4OutOfRangePart true (fun u => Ok u [])
-                          else Ok u (IPv4String (lastn + ipv4_sum init 0))
-                      end)
-             end))
-         ((if (4 <? len parts)%Z then (fun k => herr c2 u2 IPv4TooManyParts true k) else (fun k => k u2))
-           (fun u => match ipv4_numbers c2 u parts [] with
-             | Er u e => Er u e
-             | Ok u numbers =>
-               ipv4_range_warn c2 u numbers (fun u =>
-                 let init := drop_last numbers in
-                 if existsb (fun n => 255 <? n) init then herr c2 u IPv4OutOfRangePart true (fun u => Ok u [])
-                 else match last_opt numbers with
-                      | None => Ok u []
-                      | Some lastn =>
-                          if 256 ^ (5 - N.of_nat (length numbers)) <=? lastn
-                          then herr c2 u IPv4OutOfRangePart true (fun u => Ok u [])
-                          else Ok u (IPv4String (lastn + ipv4_sum init 0))
-                      end)
-             end))).
-    { intros parts v1 v2 HV. apply cond_herr_rel; [exact HV|].
-      intros w1 w2 HW.
-      pose proof (ipv4_numbers_rel parts [] HW) as HN.
-      destruct (ipv4_numbers c1 w1 parts []) as [x1 n1|x1 e1], (ipv4_numbers c2 w2 parts []) as [x2 n2|x2 e2];
-        cbn [RR] in HN.
-      - destruct HN as [HX <-].
-        apply ipv4_range_warn_rel; [exact HX|].
-        intros y1 y2 HY. cbv zeta.
-        destruct (existsb (fun n => 255 <? n) (drop_last n1)).
-        + apply herr_fatal_rel, (UR_eqv HY).
-        + destruct (last_opt n1) as [lastn|]; [|split; [exact HY|reflexivity]].
-          destruct (256 ^ (5 - N.of_nat (length n1)) <=? lastn).
-          * apply herr_fatal_rel, (UR_eqv HY).
-          * split; [exact HY|reflexivity].
-      - contradiction.
-      - destruct HN as [HE [HA|[]]]. split; [exact HE|left; exact HA].
-      - exact HN. }
-    destruct (last_opt (split 46 input)) as [[|x l]|].
-    - apply herr_rel; [exact HU|]. intros; apply AE; assumption.
-    - apply AE, HU.
-    - apply AE, HU.
+    intros HU. rewrite !parseIPv4_unfold.
+    destruct (last_opt (split 46 input)) as [[|x l]|]; try (apply ipv4_after_empty_rel, HU).
+    apply herr_rel; [exact HU| |]; intros; [apply ipv4_after_empty_rel|apply (@ipv4_after_empty_esc c2 EV H_ev)]; assumption.
   Qed.
 
   (* --- IPv6, opaque host --- *)
@@ -449,6 +637,19 @@ Section HostSim.
     - split; [exact HU|reflexivity].
     - cbn [opaque_loop].
       rewrite (ag_lax Hag), (ag_percentEncodeRune Hag).
+      assert (KE2 : forall w2, EV (u_verrs w2) ->
+        esc ((if (ch =? 37) && invalid_pct (ch :: rest)
+              then (fun k => herr c2 w2 InvalidURLUnit false k) else (fun k => k w2))
+             (fun u => opaque_loop c2 u input rest (out ++ percentEncodeRune c1 ch (Some pes_C0))))).
+      { intros w2 HW. apply (@cond_herr_esc c2 EV H_ev); [exact HW|].
+        intros; apply (@opaque_loop_esc c2 EV H_ev); assumption. }
+      assert (KE1 : forall v2, EV (u_verrs v2) ->
+        esc ((if negb (isURLCodePoint ch) && negb (ch =? 37)
+              then (fun k => herr c2 v2 InvalidURLUnit false k) else (fun k => k v2))
+             (fun u => (if (ch =? 37) && invalid_pct (ch :: rest)
+                        then (fun k => herr c2 u InvalidURLUnit false k) else (fun k => k u))
+                       (fun u => opaque_loop c2 u input rest (out ++ percentEncodeRune c1 ch (Some pes_C0)))))).
+      { intros v2 HV. apply (@cond_herr_esc c2 EV H_ev); [exact HV|exact KE2]. }
       assert (K : forall v1 v2, UR v1 v2 ->
         RR ((if negb (isURLCodePoint ch) && negb (ch =? 37)
              then (fun k => herr c1 v1 InvalidURLUnit false k) else (fun k => k v1))
@@ -460,12 +661,12 @@ Section HostSim.
              (fun u => (if (ch =? 37) && invalid_pct (ch :: rest)
                         then (fun k => herr c2 u InvalidURLUnit false k) else (fun k => k u))
                        (fun u => opaque_loop c2 u input rest (out ++ percentEncodeRune c1 ch (Some pes_C0)))))).
-      { intros v1 v2 HV. apply cond_herr_rel; [exact HV|]. intros w1 w2 HW.
-        apply cond_herr_rel; [exact HW|]. intros; apply IH; assumption. }
+      { intros v1 v2 HV. apply cond_herr_rel; [exact HV| |exact KE2]. intros w1 w2 HW.
+        apply cond_herr_rel; [exact HW| |]; intros; [apply IH|apply (@opaque_loop_esc c2 EV H_ev)]; assumption. }
       destruct (isForbiddenHost ch).
       + destruct (c_lax c1).
         * split; [exact HU|reflexivity].
-        * apply herr_rel; [exact HU|exact K].
+        * apply herr_fatal_rel, (UR_eqv HU).
       + apply K, HU.
   Qed.
 
@@ -493,7 +694,6 @@ Section HostSim.
     match goal with
     | |- RR (Ok _ _) (Ok _ _) => split; [assumption|reflexivity]
     | |- RR (herr _ _ _ true _) (herr _ _ _ true _) => apply herr_fatal_rel, UR_eqv; assumption
-    | |- RR (herr _ _ _ _ _) (herr _ _ _ _ _) => apply herr_rel; [assumption | intros ? ? ?]
     | |- RR (match endsInANumber _ _ _ with _ => _ end) _ => apply endsInANumber_k_rel; assumption
     | |- RR (parseOpaqueHost _ _ _) _ => apply parseOpaqueHost_rel; assumption
     | |- RR (parseIPv6 _ _ _) _ => apply parseIPv6_rel; assumption
